@@ -872,8 +872,10 @@ func tarHeader(content *files.Content, preferredModTimes ...time.Time) (*tar.Hea
 		} else {
 			h.Typeflag = tar.TypeBlock
 		}
+		h.Name = files.AsExplicitRelativePath(content.Destination)
 	case fm&fs.ModeNamedPipe != 0:
 		h.Typeflag = tar.TypeFifo
+		h.Name = files.AsExplicitRelativePath(content.Destination)
 	case fm&fs.ModeSocket != 0:
 		return nil, fmt.Errorf("archive/tar: sockets not supported")
 	default:
